@@ -352,3 +352,97 @@ func reachableInstr(in ssa.Instruction) bool {
 	}
 	return false
 }
+
+// acknowledgedIndexIsTheRequests (C06.4d): in the probe loop of replicate the
+// index handed to onAppendEntriesResp — what matchIndex becomes on success —
+// is nextIndex-1, the prevLogIndex of the request just written; nextIndex is
+// not touched between writing the request and reading its answer. (Moving
+// nextIndex to what the follower reports makes matchIndex a claim of the
+// follower, not a verified prefix: a follower with a diverging tail is
+// credited with the leader's entries.)
+func (h H) acknowledgedIndexIsTheRequests(rule string) {
+	fn := h.fn("raft:(*replication).replicate")
+	fi := h.P.Info(fn)
+	oar := h.fn("raft:(*replication).onAppendEntriesResp")
+	war := h.fn("raft:(*replication).writeAppendEntriesReq")
+	n := 0
+	for k, c := range h.P.CallsTo(fn, oar) {
+		if c.Parent() != fn {
+			continue
+		}
+		in := c.(ssa.Instruction)
+		arg := h.argStr(c, 2)
+		okArg := arg == "(replication.nextIndex - 1)"
+		if !okArg {
+			continue // a pipelined answer: its index is the recorded request's (pipeline-accounting)
+		}
+		n++
+		// blocks between the request write and this call
+		var w ssa.Instruction
+		for _, wc := range h.P.CallsTo(fn, war) {
+			if wc.Parent() == fn && core.Dominates(wc.(ssa.Instruction), in) {
+				w = wc.(ssa.Instruction)
+			}
+		}
+		touched := ""
+		if w != nil {
+			// forward from w along feasible (threaded) paths, up to the
+			// answer or the next request
+			type key struct {
+				b     int
+				from  int
+				sel   string
+				dirty string
+			}
+			seen := map[key]bool{}
+			var walk func(nd core.TNode, i int, dirty string)
+			walk = func(nd core.TNode, i int, dirty string) {
+				bb := nd.B
+				for ; i < len(bb.Instrs); i++ {
+					x := bb.Instrs[i]
+					if x == in {
+						if dirty != "" {
+							touched = dirty
+						}
+						return
+					}
+					if x == w {
+						return // the next request
+					}
+					if st, ok := x.(*ssa.Store); ok && fi.Sym(st.Addr).String() == "replication.nextIndex" {
+						dirty = h.pos(x)
+					}
+					if cc, ok := x.(ssa.CallInstruction); ok {
+						if sc := cc.Common().StaticCallee(); sc != nil && sc.Pkg != nil && sc.Pkg.Pkg.Name() == "raft" && h.name(sc) != "(*replication).onAppendEntriesResp" {
+							for v := range h.P.ModSet(sc) {
+								if v.Name() == "nextIndex" {
+									dirty = h.pos(x) + " (" + h.name(sc) + ")"
+								}
+							}
+						}
+					}
+				}
+				for si := range bb.Succs {
+					nx, ok := h.P.TStep(nd, si)
+					if !ok {
+						continue
+					}
+					kk := key{nx.B.Index, nx.From, nx.Sel, dirty}
+					if !seen[kk] {
+						seen[kk] = true
+						walk(nx, 0, dirty)
+					}
+				}
+			}
+			idx := 0
+			for i, x := range w.Block().Instrs {
+				if x == w {
+					idx = i + 1
+				}
+			}
+			walk(core.TEntry(w.Block()), idx, "")
+		}
+		h.C.Check(rule, h.site(fn, oar, k), okArg && w != nil && touched == "", h.pos(in), fmt.Sprintf("the index acknowledged by a probe answer must be the prevLogIndex of the request that was written (argument is nextIndex-1: %v; request write found: %v; nextIndex changed in between at: %q)", okArg, w != nil, touched))
+	}
+	h.C.Floor(rule+" (probe answers in replicate)", n, 1)
+}
